@@ -968,6 +968,10 @@ func main() {
 				fmt.Fprintf(&sb, "(* from %s : %s *)\nDefinition %s %s : %s :=\n  %s.\n", it.File, it.Func, it.Name, strings.Join(ps, " "), ret, body)
 			case "bytesvar", "expr":
 				extItem(&sb, *repo, it, pc, emitConst, wrapName) // ext_expr.go
+			case "exprarg":
+				extArgItem(&sb, *repo, it, pc, emitConst, wrapName) // ext_transfer.go
+			case "forsearch":
+				extSearchItem(&sb, *repo, it, pc, emitConst, wrapName) // ext_transfer.go
 			case "forloop":
 				extTransferItem(&sb, *repo, it, pc, emitConst, wrapName) // ext_transfer.go
 			case "callarg", "localvar":
